@@ -403,9 +403,9 @@ RULE = ("pairs/tables: Hypothesis multigraphs of 1..12 nodes and 0..40 edges (se
         "on a shortest walk, or some ordered pair is unreachable. Distinct = hash of the case.")
 
 SUBCHECKS = [
-    SubCheck("pairs", body_pairs, strategy=strat_pairs, quick=6000, thorough=300000, qshards=6,
+    SubCheck("pairs", body_pairs, strategy=strat_pairs, quick=6000, thorough=240000, qshards=6,
              rule="random multigraphs, all ordered pairs + list form"),
-    SubCheck("tables", body_tables, strategy=strat_tables, quick=4500, thorough=200000, qshards=6,
+    SubCheck("tables", body_tables, strategy=strat_tables, quick=4500, thorough=160000, qshards=6,
              rule="random multigraphs x cut-offs, all-pairs table and prepared distances"),
     SubCheck("small", body_small, enum=enum_small,
              rule="all graphs on 3 nodes with <= 2 (quick) / <= 3 (thorough) edges, weights {0,1,2}", qshards=4),
